@@ -56,10 +56,12 @@ type gconn struct {
 	relayClosed bool
 	readEnded   bool
 	fault       string
-	// read deadline set by the relay (SetReadDeadline) and the behaviour's scripted clock: the
-	// conn's "now" is time.Now()+*skew; a deadline in the past fails every Read with a timeout
-	deadline time.Time
-	skew     *time.Duration
+	// deadlines set by the relay (SetReadDeadline / SetWriteDeadline / SetDeadline) and the
+	// behaviour's scripted clock: the conn's "now" is time.Now()+*skew; a deadline in the past
+	// fails every Read (Write) with a timeout
+	deadline  time.Time
+	wdeadline time.Time
+	skew      *time.Duration
 }
 
 type timeoutErr struct{}
@@ -73,20 +75,56 @@ func (timeoutErr) Temporary() bool { return true }
 func (c *gconn) SetReadDeadline(t time.Time) error {
 	c.mu.Lock()
 	defer c.mu.Unlock()
-	c.deadline = t
+	c.deadline = c.onClock(t)
 	if !t.IsZero() {
-		c.rec.add(fw.Event{"ev": "RelayDeadline", "e": c.name, "inMs": time.Until(t).Milliseconds()})
+		c.rec.add(fw.Event{"ev": "RelayDeadline", "e": c.name, "op": "read", "inMs": time.Until(t).Milliseconds()})
 	}
 	c.cond.Broadcast()
 	return nil
 }
 
-func (c *gconn) expired() bool {
-	if c.deadline.IsZero() || c.skew == nil {
+// onClock converts a deadline the relay computed from the real time.Now() into the conn's
+// scripted clock (real time + skew): "d from now" stays "d from now".
+func (c *gconn) onClock(t time.Time) time.Time {
+	if t.IsZero() || c.skew == nil {
+		return t
+	}
+	return t.Add(*c.skew)
+}
+
+// SetWriteDeadline / SetDeadline: the rest of net.Conn's deadline family (same scripted clock).
+func (c *gconn) SetWriteDeadline(t time.Time) error {
+	c.mu.Lock()
+	defer c.mu.Unlock()
+	c.wdeadline = c.onClock(t)
+	if !t.IsZero() {
+		c.rec.add(fw.Event{"ev": "RelayDeadline", "e": c.name, "op": "write", "inMs": time.Until(t).Milliseconds()})
+	}
+	return nil
+}
+
+func (c *gconn) SetDeadline(t time.Time) error {
+	c.SetReadDeadline(t)
+	return c.SetWriteDeadline(t)
+}
+
+// LocalAddr / RemoteAddr make the directly handed conns a full net.Conn (a relay may probe for it).
+func (c *gconn) LocalAddr() net.Addr  { return scriptedAddr("local-" + c.name) }
+func (c *gconn) RemoteAddr() net.Addr { return scriptedAddr("peer-" + c.name) }
+
+type scriptedAddr string
+
+func (a scriptedAddr) Network() string { return "scripted" }
+func (a scriptedAddr) String() string  { return string(a) }
+
+func (c *gconn) past(dl time.Time) bool {
+	if dl.IsZero() || c.skew == nil {
 		return false
 	}
-	return !time.Now().Add(*c.skew).Before(c.deadline)
+	return !time.Now().Add(*c.skew).Before(dl)
 }
+
+func (c *gconn) expired() bool { return c.past(c.deadline) }
 
 // advance moves the scripted clock of both conns (they share skew) and wakes blocked Reads.
 func advance(d time.Duration, conns ...*gconn) {
@@ -108,9 +146,9 @@ func newGconn(name string, rec *recorder, g *gate, unit int) *gconn {
 
 func (c *gconn) readEnd(kind string) {
 	if kind == "timeout" {
-		// may happen more than once; it ends the direction like an error
-		c.rec.add(fw.Event{"ev": "ReadEnd", "d": c.name + otherEnd(c.name), "kind": kind})
-		c.readEnded = true
+		// a deadline the relay set itself has passed: the Read fails, the stream has NOT ended (a
+		// relay may go on reading); may happen more than once
+		c.rec.add(fw.Event{"ev": "ReadTimeout", "d": c.name + otherEnd(c.name)})
 		return
 	}
 	if !c.readEnded {
@@ -177,6 +215,10 @@ func (c *gconn) Write(p []byte) (int, error) {
 	if c.rdClosed || c.relayClosed {
 		c.rec.add(fw.Event{"ev": "WriteErr", "d": dirInto(c.name)})
 		return 0, errPipe
+	}
+	if c.past(c.wdeadline) {
+		c.rec.add(fw.Event{"ev": "WriteTimeout", "d": dirInto(c.name)})
+		return 0, timeoutErr{}
 	}
 	ok := check(p, tagOf(otherEnd(c.name)), c.gotOff)
 	c.rec.add(fw.Event{"ev": "Deliver", "e": c.name, "off": c.gotOff, "len": len(p), "ok": ok})
@@ -370,7 +412,7 @@ func driveBidi(env *fw.Env, sp bidiSpec) *fw.Trace {
 	conns["B"].skew = conns["A"].skew
 	shA, shB := sp.Steps[0].ShA, sp.Steps[0].ShB
 	cw := map[string]bool{"A": halfCloseReaches(shA), "B": halfCloseReaches(shB)}
-	rec.add(fw.Event{"ev": "BStart", "conn": "fake", "via": sp.Via, "shA": shA, "shB": shB})
+	rec.add(fw.Event{"ev": "BStart", "conn": "fake", "via": sp.Via, "shA": shA, "shB": shB, "sc": ""})
 	done, cleanup := startRelay(sp.Via, "tcp", shaped(conns["A"], shA), shaped(conns["B"], shB))
 	abort := func(status, note string) *fw.Trace {
 		conns["A"].kill()
@@ -455,7 +497,7 @@ func driveBidi(env *fw.Env, sp bidiSpec) *fw.Trace {
 // ---- free-running scripts on scripted conns ("bfree") and on real loopback TCP ("tcp") ----------
 type sop struct {
 	E  string `json:"e,omitempty"`
-	Op string `json:"op"` // send | halfclose | close | error | settle | flow (N seconds of scripted time with traffic)
+	Op string `json:"op"` // send | halfclose | close | error | settle | flow (N seconds of scripted time with traffic) | rflow (N real-time steps with traffic)
 	N  int    `json:"n,omitempty"`
 }
 
@@ -466,6 +508,40 @@ type scriptSpec struct {
 	ShB  string `json:"shB"`
 	Pipe bool   `json:"pipe,omitempty"` // kind tcp: the tunnel is a net.Pipe end behind the real adapter (no CloseWrite, is a Closer)
 	Ops  []sop  `json:"ops"`
+	// real-time scripts (op rflow): IdleMs = idle timeout given to tunnel.Tunnel (0: the code's own
+	// 5 minutes), GapMs = pause between two rounds of traffic, Sc = scenario tag for the judge
+	IdleMs int    `json:"idleMs,omitempty"`
+	GapMs  int    `json:"gapMs,omitempty"`
+	Sc     string `json:"sc,omitempty"`
+}
+
+// rflow keeps traffic going in REAL time: `steps` times { pause gap; every endpoint that is still
+// open sends a unit; wait until it has arrived }.  There is never a pause of maxGap without data
+// moving - unless this script itself was too slow (loaded machine): then paced = false and the
+// behaviour must be discarded, not judged.
+func rflow(steps int, gap, maxGap time.Duration, eps map[string]endpoint) (paced bool) {
+	last := time.Now()
+	for i := 0; i < steps; i++ {
+		time.Sleep(gap)
+		sent := false
+		for _, e := range []string{"A", "B"} {
+			if _, _, open, _ := eps[e].progress(); open {
+				eps[e].send(1000)
+				sent = true
+			}
+		}
+		if !sent {
+			return true
+		}
+		if time.Since(last) > maxGap {
+			return false
+		}
+		if !settleFor(eps, 2*time.Second) {
+			return true // not arriving any more (the judge will see what was sent and not delivered)
+		}
+		last = time.Now()
+	}
+	return true
 }
 
 type endpoint interface {
@@ -516,6 +592,15 @@ func runScript(sp scriptSpec, rec *recorder, eps map[string]endpoint, done <-cha
 			if okA && okB {
 				flow(o.N, 1000, a, b)
 			}
+		case "rflow":
+			gap := time.Duration(sp.GapMs) * time.Millisecond
+			maxGap := time.Duration(sp.IdleMs) * time.Millisecond / 2
+			if sp.IdleMs == 0 {
+				maxGap = 150 * time.Second // the code's own idle timeout: 5 minutes
+			}
+			if !rflow(o.N, gap, maxGap, eps) {
+				return errUnsettled
+			}
 		case "send":
 			eps[o.E].send(o.N)
 		case "settle":
@@ -546,9 +631,16 @@ func driveFree(env *fw.Env, sp scriptSpec) *fw.Trace {
 	g.free()
 	a, b := newGconn("A", rec, g, 1), newGconn("B", rec, g, 1)
 	b.skew = a.skew
-	rec.add(fw.Event{"ev": "BStart", "conn": "fake", "via": sp.Via, "shA": sp.ShA, "shB": sp.ShB})
-	done, cleanup := startRelay(sp.Via, "tcp", shaped(a, sp.ShA), shaped(b, sp.ShB))
+	rec.add(fw.Event{"ev": "BStart", "conn": "fake", "via": sp.Via, "shA": sp.ShA, "shB": sp.ShB, "sc": sp.Sc})
+	done, cleanup := startRelayIdle(sp.Via, "tcp", shaped(a, sp.ShA), shaped(b, sp.ShB), time.Duration(sp.IdleMs)*time.Millisecond)
 	ret := runScript(sp, rec, map[string]endpoint{"A": a, "B": b}, done)
+	if ret != nil && ret["ev"] == "unsettled" {
+		rec.seal()
+		a.kill()
+		b.kill()
+		cleanup()
+		return &fw.Trace{Status: fw.Inconclusive, Note: "real-time script: this machine was too slow to keep the traffic going"}
+	}
 	if ret == nil {
 		rec.add(fw.Event{"ev": "Hung"})
 	} else {
@@ -688,11 +780,11 @@ func driveTCP(env *fw.Env, sp scriptSpec) *fw.Trace {
 		}
 		ends[e] = &tcpEnd{name: e, rec: rec, peer: p, relay: r, wrOpen: true}
 	}
-	rec.add(fw.Event{"ev": "BStart", "conn": "tcp", "via": sp.Via, "pipe": sp.Pipe})
+	rec.add(fw.Event{"ev": "BStart", "conn": "tcp", "via": sp.Via, "pipe": sp.Pipe, "sc": sp.Sc})
 	for _, t := range ends {
 		go t.reader()
 	}
-	done, cleanup := startRelay(sp.Via, "tcp", ends["A"].relay, ends["B"].relay)
+	done, cleanup := startRelayIdle(sp.Via, "tcp", ends["A"].relay, ends["B"].relay, time.Duration(sp.IdleMs)*time.Millisecond)
 	ret := runScript(sp, rec, map[string]endpoint{"A": ends["A"], "B": ends["B"]}, done)
 	if ret != nil && ret["ev"] == "unsettled" {
 		rec.seal()
@@ -701,7 +793,7 @@ func driveTCP(env *fw.Env, sp scriptSpec) *fw.Trace {
 			t.relay.Close()
 		}
 		cleanup()
-		return &fw.Trace{Status: fw.Inconclusive, Note: "scripted pause: data did not arrive within 2 s"}
+		return &fw.Trace{Status: fw.Inconclusive, Note: "scripted pause: data did not arrive within 2 s / real-time script too slow"}
 	}
 	if ret != nil {
 		// bytes the relay wrote before returning are in the peers' socket buffers: let the readers drain them
